@@ -1,7 +1,7 @@
 (* Tie_Source: what lib/srcgen.py regenerated from /repo's sources on this run (GEN.Gen_Source) is the FIPS 180-4 /
    RFC 4648 object the models, specs and theorems of HV are about.  Hand-written and fixed; only Gen_Source.v changes.
    Every theorem is for ALL words / arrays (no bound): the generated definitions are open terms in x, w, wv, j. *)
-From HV Require Import Base_Bytes Spec_SHA Spec_Base64 Spec_Base32 Spec_Base36 Model_Sha1Transform.
+From HV Require Import Base_Bytes Spec_SHA Spec_Base64 Spec_Base32 Spec_Base36 Model_Sha1Transform Model_Sha2Ctx.
 From Coq Require Import Lia Arith.
 From GEN Require Import Gen_Source.
 From Coq Require Import List NArith.
@@ -94,6 +94,37 @@ Proof.
   apply tie_sha1_rol. repeat apply lxor_word; apply Hb.
 Qed.
 
+(* ---- the size arithmetic of SHA256::finish / SHA512::finish (where defect F1 lived) against Model_Sha2Ctx.finish2 ---- *)
+(* the parameters the model's finish is instantiated with (block bytes, word bytes, threshold): pinned here so that the tie fails if they move *)
+Theorem tie_finish_params :
+  sha256_finish = finish2 64 4 (sha2_compress P256) 55 /\ sha512_finish = finish2 128 8 (sha2_compress P512) 111 /\
+  F256.src_block_size = 64 /\ F512.src_block_size = 128 /\ F256.src_digest_size = 32 /\ F512.src_digest_size = 64.
+Proof. repeat split; reflexivity. Qed.
+(* block_nb: for every fill level the 2*BLOCK staging array admits, the source expression is finish2's `if thr <? m_len mod B then 2 else 1` *)
+Definition block_nb_ok (src : N -> N -> N) (B thr m : nat) : bool :=
+  N.eqb (src 64 (N.of_nat m)) (N.of_nat (if Nat.ltb thr (Nat.modulo m B) then 2 else 1)).
+Lemma block_nb_sweep_256 : forallb (block_nb_ok F256.src_block_nb 64 55) (seq 0 128) = true.   Proof. vm_compute. reflexivity. Qed.
+Lemma block_nb_sweep_512 : forallb (block_nb_ok F512.src_block_nb 128 111) (seq 0 256) = true. Proof. vm_compute. reflexivity. Qed.
+Theorem tie_256_block_nb : forall m, (m < 128)%nat ->
+  F256.src_block_nb 64 (N.of_nat m) = N.of_nat (if Nat.ltb 55 (Nat.modulo m 64) then 2 else 1).
+Proof. intros m H. pose proof block_nb_sweep_256 as S. rewrite forallb_forall in S.
+  apply N.eqb_eq. apply (S m). apply in_seq. lia. Qed.
+Theorem tie_512_block_nb : forall m, (m < 256)%nat ->
+  F512.src_block_nb 64 (N.of_nat m) = N.of_nat (if Nat.ltb 111 (Nat.modulo m 128) then 2 else 1).
+Proof. intros m H. pose proof block_nb_sweep_512 as S. rewrite forallb_forall in S.
+  apply N.eqb_eq. apply (S m). apply in_seq. lia. Qed.
+(* pm_len = block_nb * BLOCK for the two values block_nb takes *)
+Theorem tie_pm_len : F256.src_pm_len 64 1 = 64 /\ F256.src_pm_len 64 2 = 128 /\ F512.src_pm_len 64 1 = 128 /\ F512.src_pm_len 64 2 = 256.
+Proof. repeat split; reflexivity. Qed.
+(* len_b = ((m_tot_len + m_len) * 8) mod 2^64, for every counter value and fill level: finish2's len_b *)
+Lemma len_b_arith (t m : N) : N.land (N.shiftl (wadd 64 t m) 3) (wmask 64) = ((t + m) * 8) mod 2 ^ 64.
+Proof.
+  change (wmask 64) with (N.ones 64). rewrite N.land_ones, N.shiftl_mul_pow2. unfold wadd.
+  change (2 ^ 3) with 8. rewrite N.mul_mod_idemp_l by (intro E; discriminate E). reflexivity.
+Qed.
+Theorem tie_len_b : forall t m, F256.src_len_b 64 t m = ((t + m) * 8) mod 2 ^ 64 /\ F512.src_len_b 64 t m = ((t + m) * 8) mod 2 ^ 64.
+Proof. intros; split; apply len_b_arith. Qed.
+
 (* ---- codec alphabets (RFC 4648 tables 1, 2, 3; Base36 digits) ---- *)
 Theorem tie_b64 : src_b64_std = b64_spec_alphabet false /\ src_b64_url = b64_spec_alphabet true.
 Proof. split; reflexivity. Qed.
@@ -104,4 +135,5 @@ Print Assumptions tie_K256. Print Assumptions tie_K512. Print Assumptions tie_IV
 Print Assumptions tie_rounds. Print Assumptions tie_IV1. Print Assumptions tie_K1.
 Print Assumptions tie_256_funcs. Print Assumptions tie_512_funcs. Print Assumptions tie_256_sched. Print Assumptions tie_512_sched.
 Print Assumptions tie_256_round. Print Assumptions tie_512_round. Print Assumptions tie_sha1_rol. Print Assumptions tie_sha1_rounds. Print Assumptions tie_sha1_blk.
+Print Assumptions tie_finish_params. Print Assumptions tie_256_block_nb. Print Assumptions tie_512_block_nb. Print Assumptions tie_pm_len. Print Assumptions tie_len_b.
 Print Assumptions tie_b64. Print Assumptions tie_b32. Print Assumptions tie_b36.
